@@ -31,7 +31,41 @@ def not_rule(g):
     return doc
 
 
+def operand_not_exactly_one(g):
+    """operand-level `$not` followed by a further operand item, on instructions with 2-4 operands: the `$not` must stand
+    for exactly ONE operand, so the item after it has to meet the very next operand (near misses: the wanted operand one
+    position later, or the `$not` argument holding at the candidate operand)"""
+    regs = g.r.sample(["%rax", "%rbx", "%rcx", "%rdx", "%rsi", "%rdi", "%r8"], 4)
+    m = g.pick(["imul", "shld", "vaddps", "mov"])
+    x, y = regs[0], regs[1]
+    lead = g.pick([[], ["$0x3"]])
+    doc = {"pattern": [{m: list(lead) + [{"$not": [x.lstrip("%")]}, y.lstrip("%")]}]}
+    if g.chance(0.4):
+        doc["config"] = {"operands-full-match": False, "mnemonics-full-match": g.chance(0.5)}
+    k = g.int(0, 3)
+    if k == 0:      # exactly: other, y            -> found
+        ops = lead + [regs[2], y]
+    elif k == 1:    # one extra operand in between  -> not found
+        ops = lead + [regs[2], regs[3], y]
+    elif k == 2:    # argument holds at the candidate operand -> not found
+        ops = lead + [x, y]
+    else:           # further operands after the wanted one -> found
+        ops = lead + [regs[2], y, regs[3]]
+    insts = [("401000", m, ops), ("401004", "ret", [])]
+    return doc, insts, "operand-not-%d" % k
+
+
 def run(ctx, factor):
+    rep = ctx.report
+    for _ in range(ctx.budget(40, 1500) * factor):
+        doc, insts, tag = operand_not_exactly_one(ctx.g)
+        o = patdiff.observe(ctx, doc, insts, modes=("bool", "all", "first"))
+        usable = patdiff.correspondence(ctx, o)
+        if usable:
+            patdiff.spec_verdict(ctx, o)
+        rep.case(patdiff.case_of(o), usable, tags=[tag])
+        if rep.violations and factor > 1:
+            return
     ctx.report.rule = ("rules with $not in leading / inner / trailing / repeated / operand position, argument a "
                        "single item or a group spanning 1-3 instructions; listings where the argument holds / fails "
                        "at the candidate instruction (realised + perturbed); verdict and all-matches texts vs the "
